@@ -53,7 +53,7 @@ CHECKS = {
    "approximate graph answers outside the exact regimes are not compared across instances; fsync/commit of bbolt trusted; rejected batches are not applied to memstore (as the property scopes it)",
    "exhaustive enumeration of write histories in lock-step over five configurations of the real code (differential + reference model)", "DESIGN.md §4 C08"),
  "C11": (True, "schedx", "model_checking",
-   "Stateless preemption-bounded search over ALL interleavings of two (thorough: also three) transaction programs on the real cache manager: manager.go is compiled with its sync / sync/atomic imports redirected (build overlay generated from the working tree) to cooperative shims, so every Lock/RLock/TryRLock/Unlock and atomic.Bool operation is a scheduling point; 13 transaction shapes (incl. the same cache written twice) x evictor x manager size {-1,0,1,10} x initial map; quick: 1092 pair programs with <=1 preemption and 72 with <=2 (3.4M complete executions), thorough: all pairs <=2, triples <=1, core <=3. Monitors: writer isolation, no uncommitted state observed, scrapped caches never handed out, shared caches reflect committed storage, deadlock freedom, final write+commit probe on every cache.",
+   "Stateless preemption-bounded search over ALL interleavings of two (thorough: also three) transaction programs on the real cache manager: manager.go is compiled with its sync / sync/atomic imports redirected (build overlay generated from the working tree) to cooperative shims, so every Lock/RLock/TryRLock/Unlock and atomic.Bool operation is a scheduling point; 14 transaction shapes (incl. the same cache written twice) x evictor x manager size {-1,0,1,10} x initial map; quick: 1092 pair programs with <=1 preemption and 72 with <=2 (3.4M complete executions), thorough: all pairs <=2, triples <=1, core <=3. Monitors: writer isolation, no uncommitted state observed, scrapped caches never handed out, shared caches reflect committed storage, deadlock freedom, final write+commit probe on every cache.",
    "storage is a stand-in (per-cache committed version + per-shard single-writer token); sequentially consistent interleavings of the shimmed operations; usage protocol of the shard (each With returns before Commit)",
    "stateless DFS over schedules of the real code under a controlled scheduler, iterative preemption bounding", "DESIGN.md §4 C11"),
  "C07": (True, "faultx", "fault_enumeration",
@@ -85,7 +85,7 @@ CHECKS = {
    "a killed sender = its Sync returning an error; a killed receiver = the file state after chunk k; RpcRetries 1; real kill -9 inside write(2) replaced by torn-file enumeration",
    "exhaustive enumeration of configurations x fault points (chunk indices, torn files) on the real synchronisation code", "DESIGN.md §4 C14"),
  "C18": (True, "seqx-input", "exploration",
-   "Exhaustive enumeration of a bounded request grammar against the assembled HTTP handler chain (v1 + v2 mux, app-header middleware, Recover) of a real node, in worker processes so that a fatal error is attributed to the request in flight: every byte string of length <= 4 (thorough 5) over structural JSON / MessagePack alphabets as body of all 10 body-taking routes; every node of 11 valid base requests deleted or replaced by each of 32 boundary / wrong-type / reserved values in JSON and MessagePack; header and content-type variants, unknown and body-less routes, every v1 route on a v2 collection and vice versa, quota / size / vector-length limits, composites carrying both an _and and an _or list with a schema-violating member, nesting depths 10..10^6. Oracle: never 5xx, never a dead process, certainly-invalid requests get 4xx, any 4xx leaves the digest of all collections and points unchanged (a difference is confirmed by replaying only the refused requests on a fresh node), unmodified base requests succeed.",
+   "Exhaustive enumeration of a bounded request grammar against the assembled HTTP handler chain (v1 + v2 mux, app-header middleware, Recover) of a real node, in worker processes so that a fatal error is attributed to the request in flight: every byte string of length <= 4 (thorough 5) over structural JSON / MessagePack alphabets as body of all 10 body-taking routes; every node of 11 valid base requests deleted or replaced by each of 34 boundary / wrong-type / reserved values (incl. 2^63, 2^63-1, -2^63) in JSON and MessagePack; header and content-type variants, unknown and body-less routes, every v1 route on a v2 collection and vice versa, quota / size / vector-length limits, composites carrying both an _and and an _or list with a schema-violating member, nesting depths 10..10^6. Oracle: never 5xx, never a dead process, certainly-invalid requests get 4xx, any 4xx leaves the digest of all collections and points unchanged (a difference is confirmed by replaying only the refused requests on a fresh node), unmodified base requests succeed.",
    "the input space is infinite: the grammar, its length bound and single-field mutations are the stated bound; huge bodies (memory exhaustion) are not explored",
    "bounded-exhaustive enumeration of request bytes and single-field mutations against the real handlers with crash attribution", "DESIGN.md §4 C18"),
 }
